@@ -16,6 +16,7 @@ from vf import core
 EX, SUB, SUB2 = "example.com", "a.example.com", "b.a.example.com"
 INNER, NEAR, NEAR2 = "a.example.com.evil.org", "notexample.com", "evil-example.com"
 LPRE, OTHER, IP = "a.example.community", "other.org", "10.1.2.3"
+IP2, IP3 = "192.168.2.3", "10.1.2.30"  # share the dotted numeric suffix ".2.3" with IP / only the string prefix
 SUFX = "a.example.com.notexample.com"  # ".example.com" occurs inside AND "example.com" ends the host without a dot
 
 
@@ -44,6 +45,12 @@ SET_QUICK = [
     _set(SUFX, 80, _ck("a", ".example.com")),
     _set(SUB, 80, _ck("b", "example.com")),
     _set(EX, 80, _ck("a", ".example.com", "/foo"), _ck("b", ".example.com", "/foo")),
+    # servers addressed by IP literal: a Domain that is a dotted numeric suffix of the address never matches (5.1.3:
+    # suffix matches need a host NAME); host-only cookies of an IP host stay with that address
+    _set(IP, 80, _ck("a", ".2.3")),
+    _set(IP, 80, _ck("s")),
+    # a cookie path ending in "/" (5.1.4: /foo/ is a prefix of /foo/bar but not of /foo)
+    _set(EX, 80, _ck("p", None, "/foo/")),
 ]
 REQ_QUICK = [
     _req(EX, 80, "/"),
@@ -57,13 +64,16 @@ REQ_QUICK = [
     _req(NEAR, 80, "/foo"),
     _req(SUFX, 80, "/foo"),
     _req(EX, 80, "/foo", False),
+    _req(IP, 80, "/"),
+    _req(IP2, 80, "/"),
 ]
 SET_THOROUGH = SET_QUICK + [
     _set(SUB, 80, _ck("a")),
     _set(EX, 80, _ck("e", "example.com", "/foo/")),
     _set(LPRE, 80, _ck("a", ".example.com")),
-    _set(IP, 80, _ck("a", ".2.3")),
-    _set(IP, 80, _ck("a")),
+    _set(IP, 80, _ck("a", "2.3")),
+    _set(IP, 80, _ck("a", IP)),
+    _set(IP2, 80, _ck("a", ".3")),
     _set(EX, 80, _ck("a", None, None, True)),
     _set(EX, 80, _ck("a", ".example.com", "/foo", True), _ck("a", ".example.com", "/foo")),
     _set(EX, 80, _ck("f", ".com")),
@@ -71,7 +81,7 @@ SET_THOROUGH = SET_QUICK + [
 REQ_THOROUGH = REQ_QUICK + [
     _req(SUB2, 80, "/"),
     _req(LPRE, 80, "/"),
-    _req(IP, 80, "/"),
+    _req(IP3, 80, "/"),
     _req(OTHER, 80, "/foo"),
     _req(EX, 80, "/foo/"),
     _req(EX, 80, "/fo"),
@@ -217,11 +227,13 @@ class Check(core.PropertyCheck):
     # seeded random driver: longer histories over a small per-scenario universe (so that cookies collide, get replaced
     # and re-issued as expired), more hosts/ports/paths, mixed case, queries, several cookies per response
     def _random(self, rng):
+        if rng.random() < 0.2:
+            return self._random_ip(rng)
         stem = rng.choice([EX, "example.org", "ex.co"])
         good = [stem, "a." + stem, "b.a." + stem, stem.upper(), "A." + stem]
         odd = ["a." + stem + ".evil.org", stem + ".evil.org", "not" + stem, "evil-" + stem, "a." + stem + "munity",
                "a." + stem + ".not" + stem, "b." + stem + ".x" + stem,
-               "a." + stem + "-x.org", OTHER, IP, "10.1.2.30"]
+               "a." + stem + "-x.org", OTHER, IP, IP3, IP2]
         hosts = rng.sample(good, 2) + rng.sample(odd, 2)
         doms = [None, rng.choice([stem, "." + stem]), rng.choice(["a." + stem, ".a." + stem, "." + stem.upper()]),
                 rng.choice([OTHER, "." + OTHER, ".com", "com", ".2.3", "2.3", IP, "evil.org", ".evil.org", stem + ".evil.org"])]
@@ -252,6 +264,34 @@ class Check(core.PropertyCheck):
                 ops.append(["req", _req(rng.choice(hosts + good), rng.choice(ports), rng.choice(paths), rng.random() < 0.85),
                             rng.randrange(1 << 16)])
         return {"flt": flt, "ops": ops}
+
+    # the same kind of history among servers addressed by IP literals (addresses sharing dotted / undotted suffixes)
+    def _random_ip(self, rng):
+        a, b, c, d = (rng.choice(["10", "192", "8"]), rng.choice(["1", "168"]), rng.choice(["2", "0"]), rng.choice(["3", "5"]))
+        base = ".".join([a, b, c, d])
+        hosts = [base, ".".join([rng.choice(["172", "16"]), "9", c, d]), base + "0", "1" + base,
+                 ".".join([a, b, c, "1" + d]), "[::1]", "host." + c + "." + d]
+        doms = [None, None, base, "." + base, c + "." + d, "." + c + "." + d, "." + d, d, "." + b + "." + c + "." + d, "0." + d]
+        paths = ["/", "/foo", "/foo/bar", "/foobar"]
+        cpaths = [None, None, "/", "/foo"]
+        ports = rng.sample([80, 8080, 443], 2)
+        ops, issued = [], []
+        for _ in range(rng.randint(4, 12)):
+            x = rng.random()
+            if x < 0.1 and issued:
+                host, port, ck = rng.choice(issued)
+                ops.append(["resp", _set(host, port, _ck(ck["name"], ck["dom"], ck["path"], True)), rng.randrange(1 << 16)])
+            elif x < 0.45:
+                host = rng.choice(hosts[:2] if rng.random() < 0.8 else hosts)
+                port = rng.choice(ports)
+                cookies = [_ck(rng.choice(["a", "sid"]), rng.choice(doms), rng.choice(cpaths), rng.random() < 0.1)
+                           for _ in range(rng.choice([1, 1, 2]))]
+                issued.extend((host, port, ck) for ck in cookies if not ck["expired"])
+                ops.append(["resp", _set(host, port, *cookies), rng.randrange(1 << 16)])
+            else:
+                ops.append(["req", _req(rng.choice(hosts), rng.choice(ports), rng.choice(paths), rng.random() < 0.85),
+                            rng.randrange(1 << 16)])
+        return {"flt": rng.choice(["all", "all", "get"]), "ops": ops}
 
     # ------------------------------------------------------------------------------------------------
     def execute(self, sc):
